@@ -124,8 +124,13 @@ func GenConfig(rng *rand.Rand, p *Profile) *CaseConfig {
 	}
 	// sometimes one member sits out the committee of the later heights (it runs an out-of-committee term there and moves on by node sync only)
 	if n >= 5 && rng.Intn(5) == 0 {
-		out := ids[rng.Intn(n)]
-		for h := uint64(2); h <= p.MaxH+1; h++ {
+		oi := rng.Intn(n)
+		out := ids[oi]
+		last := p.MaxH + 1
+		if oi%2 == 0 {
+			last = 2 // ... or of height 2 only: it is a member again from height 3 on
+		}
+		for h := uint64(2); h <= last; h++ {
 			var cm []interfaces.CommitteeMember
 			for _, m := range cfg.Committees[h] {
 				if string(m.Id) != out {
